@@ -652,7 +652,15 @@ func replayFile(path string, hs []harness, pkgNames map[string]string) (bool, st
 	}
 	switch rec.Kind {
 	case "assert":
-		return strings.Contains(out, "VERIF-ASSERT-FAILED: "+rec.Msg+"\n"), out
+		if strings.Contains(out, "VERIF-ASSERT-FAILED: "+rec.Msg+"\n") {
+			return true, out
+		}
+		// The native twin of a harness may observe the same fault through
+		// another of the harness's obligations (it sees the real collaborators,
+		// the symbolic side their models): the counterexample reproduces when
+		// the real build fails any assertion of this harness on these values
+		// before the first failed assumption.
+		return strings.Contains(out, "VERIF-ASSERT-FAILED: "), out
 	case "panic":
 		return strings.Contains(out, "VERIF-PANIC: ") || strings.Contains(out, "panic: "), out
 	}
